@@ -20,6 +20,24 @@ GEN_FILES = [
 ]
 
 
+def sweep_stale_scratch(max_age_s=3 * 3600):
+    """scratch directories of runs that were killed (time limit) are removed when they are old enough not to belong
+    to a run in progress"""
+    import shutil
+    import time
+    for name in os.listdir("/var/tmp"):
+        if name.startswith(("genrun-", "c18-")):
+            p = os.path.join("/var/tmp", name)
+            try:
+                if time.time() - os.path.getmtime(p) > max_age_s:
+                    shutil.rmtree(p, ignore_errors=True)
+            except OSError:
+                pass
+
+
+sweep_stale_scratch()
+
+
 class Case:
     def __init__(self, files, tag, flags):
         self.files, self.tag, self.flags = files, tag, flags
